@@ -127,6 +127,7 @@ pub fn walk(sink: &mut Sink, seed: u64, run_id: u64, setup: Setup, opts: &WalkOp
                     let expected: i64 = match rng.gen_range(0..6) {
                         0 => m_exact as i64,
                         1 => m_exact as i64 + 1,
+                        2 if m_exact > 0 => m_exact as i64 - 1,
                         _ => -1,
                     };
                     let fail: Vec<u64> = match rng.gen_range(0..12) {
@@ -264,8 +265,9 @@ pub fn walk(sink: &mut Sink, seed: u64, run_id: u64, setup: Setup, opts: &WalkOp
                         .filter(|p| !opts.honest || p["status"] != "sent")
                         .map(|p| ju(p, "seq") as u64)
                         .collect();
-                    if pool.is_empty() {
-                        None
+                    if pool.is_empty() || rng.gen_range(0..10) == 0 {
+                        // an empty selection (refused), whether or not packets are tracked
+                        Some(json!({"m":"recover","s":admin.clone(),"paginated":"none","has_sel":true,"sel":[],"receiver":""}))
                     } else {
                         let k = rng.gen_range(1..=pool.len().min(3));
                         let mut sel: Vec<u64> = pool.choose_multiple(&mut rng, k).cloned().collect();
